@@ -21,6 +21,10 @@ open LexVerif.Proof.PNTotal (Rel Adv csum)
 structure SepCfg (c : Cfg) (o : POpts) : Prop where
   rel : Rel c
   fmt : c.feats.format = true
+  /-- there is a digit-separator byte (otherwise `partial_prefix_number` applies) -/
+  bytes : c.bytesContiguous = false
+  /-- builds without `power-of-two` only have radix 10 (what `is_valid_radix` enforces) -/
+  rad : c.feats.powerOfTwo = false → c.mantissaRadix ≤ 10
   noPrefix : c.basePrefix = 0
   radix : 1 ≤ c.mantissaRadix
   /-- the separator is not a digit -/
